@@ -8,7 +8,7 @@ from hypothesis import strategies as st
 import dadi
 from dadi import Inference
 from harness import gens
-from harness.core import Registry, Violation, dadi_call, require, require_close
+from harness.core import Registry, Violation, Reject, dadi_call, require, require_close
 from harness.refs import folding, hypergeom
 
 logging.getLogger('Inference').setLevel(logging.CRITICAL)
@@ -64,6 +64,8 @@ def poisson_ll(model, data, joint_mask):
         if joint_mask[idx]:
             continue
         m, d = float(model[idx]), float(data[idx])
+        if not m > 0:
+            raise Reject('model entry not positive (underflow after scaling)')
         v = -m + d * math.log(m) - math.lgamma(d + 1.0)
         per[idx] = v
         tot += v
